@@ -15,6 +15,7 @@ def run(c):
     # fixed method: the layout object survives an option change with the same layout file; a key pressed after it obeys the new options
     import obl_fixed
     obl_fixed.obl_layout_table(c, thorough=(c.tier == "thorough"), budget_s=900, numpad_rows_only=(c.tier != "thorough"))
+    obl_context.obl_layout_switch(c, budget_s=600)      # "a changed layout switches method and layout": the real constructors from MIR, two layout files as oracles
     # the method object and its memo survive an option change (update_engine, same layout): the switches are read when a word is shown
     A.obl_reconfig(c, ct, thorough=(c.tier == "thorough"), budget_s=900)
     # the refresh (update_engine) only re-reads the auto-correct list: everything else the constructor loads must not depend on the options
